@@ -394,78 +394,103 @@ ROWS = [
 ]
 
 
+def run_row(facts, rep, row, short_override=None):
+    n_fn = n_eff = n_guard = 0
+    body = facts.body(row["fn"])  # ANCHOR-MISSING -> CheckBroken
+    n_fn += 1
+    effects = find_effects(body, row.get("extra"), facts)
+    short = short_override or row["fn"].split("::", 1)[1]
+    if len(effects) < row["min_effects"]:
+        raise CheckBroken(
+            "floor not met: %s has %d recognised effect sites, expected >= %d (effect table out of date?)"
+            % (row["fn"], len(effects), row["min_effects"])
+        )
+    n_eff += len(effects)
+    eff_blocks = {}
+    for (name, b, i, site) in effects:
+        eff_blocks.setdefault(b, []).append((name, i, site))
+    for gname, (minc, subset) in row["guards"].items():
+        found = GUARDS[gname](body, facts) + guards_via_helper(body, facts, gname)
+        if not found:
+            # the whole guarded section may have been moved into one helper (e.g. a shared `commit_inner`):
+            # if every effect of this function happens inside that single call, judge the guard there
+            sites = {b for (_n, b, _i, _s) in effects}
+            if len(sites) == 1:
+                cb = next(iter(sites))
+                ct = body.term(cb)
+                H = facts.bodies.get(ct.get("callee") or "") if ct["k"] == "call" else None
+                if H is not None and H.crate == "nomt" and H.kind != "Closure":
+                    sub = dict(row)
+                    sub["fn"] = H.id
+                    sub["guards"] = {gname: (minc, subset)}
+                    sub["min_effects"] = 1
+                    f2, e2, g2 = run_row(facts, rep, sub, short + " via " + H.id.split("::")[-1])
+                    n_guard += g2
+                    continue
+        # de-duplicate by switch block
+        uniq = {}
+        for (sw, desc, site) in found:
+            uniq.setdefault(sw, (desc, site))
+        if len(uniq) < minc:
+            n_guard += minc - len(uniq)  # a removed guard is a violation, not a reason for the floor to fail
+            rep.violation(
+                "guardfx",
+                short,
+                "guard=%s|missing" % gname,
+                "refusal guard `%s` not found in %s (expected %d, found %d): the check was removed or no longer branches" % (gname, row["fn"], minc, len(uniq)),
+                site=body.span,
+            )
+        for sw, (desc, site) in sorted(uniq.items()):
+            n_guard += 1
+            my_effects = [(n, b, i, s) for (n, b, i, s) in effects if subset is ALL or n in subset]
+            succs = body.succ(sw)
+            # refusal edge: successor from which no protected effect is reachable
+            reach_eff = {}
+            for s in set(succs):
+                r = body.reachable([s])
+                reach_eff[s] = sorted({n for (n, b, i, _s) in my_effects if b in r})
+            refusal = [s for s in reach_eff if not reach_eff[s]]
+            passing = [s for s in reach_eff if reach_eff[s]]
+            inst = "guard=%s" % gname
+            if not passing:
+                # nothing after the guard: every protected effect precedes it
+                for (n, b, i, s) in my_effects:
+                    rep.violation(
+                        "guardfx", short, "effect=%s|%s" % (n, inst),
+                        "effect %s (at %s) is not dominated by guard `%s` (%s at %s): no protected effect follows the guard" % (n, s, gname, desc, site),
+                        site=s,
+                    )
+                continue
+            if not refusal:
+                rep.violation(
+                    "guardfx", short, "%s|no-refusal-edge" % inst,
+                    "both edges of guard `%s` (%s at %s) reach an effect: the refusal no longer refuses" % (gname, desc, site),
+                    site=site,
+                )
+                continue
+            for (n, b, i, s) in my_effects:
+                ok = b != sw and body.dominates(sw, b)
+                # effects reachable from refusal edge are excluded by construction of `refusal`
+                rep.check(
+                    ok, "guardfx", short, "effect=%s|%s" % (n, inst),
+                    "effect %s (at %s) is not dominated by the pass edge of guard `%s` (%s at %s): it can happen although the commit is then refused/deferred" % (n, s, gname, desc, site),
+                    site=s,
+                    detail="guard %s [%s] at %s: switch bb%d, refusal edge -> bb%s (no effect reachable), pass edge -> bb%s; effect %s at %s in bb%d is dominated by bb%d"
+                    % (gname, desc, site, sw, refusal, passing, n, s, b, sw),
+                )
+    rep.call_sites += len(effects)
+    return n_fn, n_eff, n_guard
+
+
 def run(facts, rep, prop):
     n_fn = n_eff = n_guard = 0
     for row in ROWS:
         if prop not in row["props"]:
             continue
-        body = facts.body(row["fn"])  # ANCHOR-MISSING -> CheckBroken
-        n_fn += 1
-        effects = find_effects(body, row.get("extra"), facts)
-        short = row["fn"].split("::", 1)[1]
-        if len(effects) < row["min_effects"]:
-            raise CheckBroken(
-                "floor not met: %s has %d recognised effect sites, expected >= %d (effect table out of date?)"
-                % (row["fn"], len(effects), row["min_effects"])
-            )
-        n_eff += len(effects)
-        eff_blocks = {}
-        for (name, b, i, site) in effects:
-            eff_blocks.setdefault(b, []).append((name, i, site))
-        for gname, (minc, subset) in row["guards"].items():
-            found = GUARDS[gname](body, facts) + guards_via_helper(body, facts, gname)
-            # de-duplicate by switch block
-            uniq = {}
-            for (sw, desc, site) in found:
-                uniq.setdefault(sw, (desc, site))
-            if len(uniq) < minc:
-                n_guard += minc - len(uniq)  # a removed guard is a violation, not a reason for the floor to fail
-                rep.violation(
-                    "guardfx",
-                    short,
-                    "guard=%s|missing" % gname,
-                    "refusal guard `%s` not found in %s (expected %d, found %d): the check was removed or no longer branches" % (gname, row["fn"], minc, len(uniq)),
-                    site=body.span,
-                )
-            for sw, (desc, site) in sorted(uniq.items()):
-                n_guard += 1
-                my_effects = [(n, b, i, s) for (n, b, i, s) in effects if subset is ALL or n in subset]
-                succs = body.succ(sw)
-                # refusal edge: successor from which no protected effect is reachable
-                reach_eff = {}
-                for s in set(succs):
-                    r = body.reachable([s])
-                    reach_eff[s] = sorted({n for (n, b, i, _s) in my_effects if b in r})
-                refusal = [s for s in reach_eff if not reach_eff[s]]
-                passing = [s for s in reach_eff if reach_eff[s]]
-                inst = "guard=%s" % gname
-                if not passing:
-                    # nothing after the guard: every protected effect precedes it
-                    for (n, b, i, s) in my_effects:
-                        rep.violation(
-                            "guardfx", short, "effect=%s|%s" % (n, inst),
-                            "effect %s (at %s) is not dominated by guard `%s` (%s at %s): no protected effect follows the guard" % (n, s, gname, desc, site),
-                            site=s,
-                        )
-                    continue
-                if not refusal:
-                    rep.violation(
-                        "guardfx", short, "%s|no-refusal-edge" % inst,
-                        "both edges of guard `%s` (%s at %s) reach an effect: the refusal no longer refuses" % (gname, desc, site),
-                        site=site,
-                    )
-                    continue
-                for (n, b, i, s) in my_effects:
-                    ok = b != sw and body.dominates(sw, b)
-                    # effects reachable from refusal edge are excluded by construction of `refusal`
-                    rep.check(
-                        ok, "guardfx", short, "effect=%s|%s" % (n, inst),
-                        "effect %s (at %s) is not dominated by the pass edge of guard `%s` (%s at %s): it can happen although the commit is then refused/deferred" % (n, s, gname, desc, site),
-                        site=s,
-                        detail="guard %s [%s] at %s: switch bb%d, refusal edge -> bb%s (no effect reachable), pass edge -> bb%s; effect %s at %s in bb%d is dominated by bb%d"
-                        % (gname, desc, site, sw, refusal, passing, n, s, b, sw),
-                    )
-        rep.call_sites += len(effects)
+        a, b, c = run_row(facts, rep, row)
+        n_fn += a
+        n_eff += b
+        n_guard += c
     return n_fn, n_eff, n_guard
 
 
